@@ -1512,7 +1512,7 @@ request_parse(u8 *packet, int length, struct evdns_server_port *port,
 	char tmp_name[256]; /* used by the macros */
 
 	int i;
-	u16 trans_id, flags, questions, answers, authority, additional;
+	u16 trans_id, flags, opcode, questions, answers, authority, additional;
 	struct server_request *server_req = NULL;
 	u32 ttl;
 	u16 type, class, rdlen;
@@ -1528,6 +1528,7 @@ request_parse(u8 *packet, int length, struct evdns_server_port *port,
 	GET16(additional);
 
 	if (flags & _QR_MASK) return -1; /* Must not be an answer. */
+	opcode = flags & _OP_MASK;
 	flags &= (_RD_MASK|_CD_MASK); /* Only RD and CD get preserved. */
 
 	server_req = mm_malloc(sizeof(struct server_request));
@@ -1612,7 +1613,7 @@ request_parse(u8 *packet, int length, struct evdns_server_port *port,
 	port->refcnt++;
 
 	/* Only standard queries are supported. */
-	if (flags & _OP_MASK) {
+	if (opcode) {
 		evdns_server_request_respond(&(server_req->base), DNS_ERR_NOTIMPL);
 		return -1;
 	}
